@@ -336,3 +336,74 @@ func wideCheck[O any, W any](in *O, w *W, same func(*O) bool, bodyLen int) {
 	vrt.Assert("unmarshal ok", p.Unmarshal(data, &out) == nil)
 	vrt.Assert("round trip", same(&out))
 }
+
+// H05b_PackedBig: a packed slice whose body is several thousand bytes (the
+// back-filled length of a single-pass writer needs two bytes, nearly three).
+func H05b_PackedBig() {
+	n := []int{818, 819, 820, 1638, 1639}[vrt.Choice("n", 5)] // x10 bytes: around 8192 and 16384
+	type row struct {
+		A []uint64 `plenc:"1"`
+		Z int      `plenc:"2"`
+	}
+	in := row{A: make([]uint64, n), Z: smallSym("Z")}
+	for i := range in.A {
+		in.A[i] = ^uint64(i) // ten bytes each
+	}
+	in.A[0] = vrt.U64("a0") | 1<<63
+	in.A[n-1] = vrt.U64("aN") | 1<<63
+	p := newPlenc(cfgDef)
+	c, err := p.CodecForType(reflect.TypeOf(in.A))
+	vrt.Assert("codec ok", err == nil)
+	if err != nil {
+		return
+	}
+	tag := []byte{0x0a}
+	ptr := unsafe.Pointer(&in.A)
+	body := c.Append(nil, ptr, nil)
+	framed := c.Append(nil, ptr, tag)
+	vrt.Assert("body length", len(body) == 10*n)
+	vrt.Assert("Size(tag) == len(Append)", c.Size(ptr, tag) == len(framed))
+	exp := refVarint(append([]byte{}, tag...), uint64(len(body)))
+	vrt.Assert("framing: tag, length, body", vrt.BytesEq(framed, append(exp, body...)))
+	data, err := p.Marshal(nil, &in)
+	vrt.Assert("marshal ok", err == nil)
+	var out row
+	vrt.Assert("unmarshal ok", p.Unmarshal(data, &out) == nil)
+	vrt.Assert("round trip", len(out.A) == n && vrt.And(out.Z == in.Z, vrt.And(out.A[0] == in.A[0], out.A[n-1] == in.A[n-1])))
+}
+
+// H01b_MapEntry: map entries whose encoded size sits on the length-prefix boundaries.
+func H01b_MapEntry() {
+	n := []int{126, 127, 128, 16382, 16383, 16384}[vrt.Choice("entry", 6)]
+	// entry = tag(1) len(1) "k" + tag(1) varint(len v) v  => 3 + 1 + lv + len(v)
+	lv := n - 5
+	if lv >= 128 {
+		lv--
+	}
+	type row struct {
+		M map[string]string `plenc:"1"`
+		P map[string]string `plenc:"2,proto"`
+		Z int               `plenc:"3"`
+	}
+	v := vrt.String("v", lv)
+	in := row{M: map[string]string{"k": v}, P: map[string]string{"k": v}, Z: smallSym("Z")}
+	p := newPlenc(cfgDef)
+	data, err := p.Marshal(nil, &in)
+	vrt.Assert("marshal ok", err == nil)
+	entry := refLenField(refLenField(nil, 1, []byte("k")), 2, []byte(v))
+	vrt.Assert("entry size as intended", len(entry) == n)
+	exp := refTag(nil, 3, 1)
+	exp = refVarint(exp, 1)
+	exp = refVarint(exp, uint64(len(entry)))
+	exp = append(exp, entry...)
+	exp = refLenField(exp, 2, entry)
+	exp = refTag(exp, 0, 3)
+	exp = refVarint(exp, refZigZag(int64(in.Z)))
+	vrt.Assert("bytes == documented encoding", vrt.BytesEq(data, exp))
+	var out row
+	vrt.Assert("unmarshal ok", p.Unmarshal(data, &out) == nil)
+	vrt.Assert("round trip", vrt.And(out.Z == in.Z, vrt.And(out.M["k"] == v, out.P["k"] == v)))
+}
+
+func H02b_MapEntry() { H01b_MapEntry() }
+func H05b_MapEntry() { H01b_MapEntry() }
